@@ -521,7 +521,10 @@ Record env := mk_env {
   e_key : name -> lookup;                    (* subQuery(name DNSKEY) *)
   e_dname : name -> N -> bool -> lookup;     (* internalExchange(target, qtype, cd) *)
   e_orc : N -> N -> name -> name -> ores;    (* kind, message id, subject, signer zone *)
-  e_wild : N -> name -> name -> wres         (* message id, next closer, signer zone *)
+  e_wild : N -> list rr -> name -> name -> wres
+    (* message id, the NSEC/NSEC3 records of the authority section the verifier is SHOWN, next closer, signer zone.
+       nextCloserDeniedWithWork's NSEC branch does no zone binding of its own, so which records reach it is
+       part of the answer() logic and therefore of the model, not of the oracle *)
 }.
 
 (* dsRRFromRootKeys *)
@@ -773,6 +776,11 @@ Fixpoint signer_loop (E : env) (qname : name) (resp : msg) (parentDS : list rr) 
       end
   end.
 
+(* the nsecSet / nsec3Set split at the head of VerifyWildcardAnswerForZoneWithWork: what of a section the
+   next-closer check looks at *)
+Definition denial_records (ns : list rr) : list rr :=
+  filter (fun r => (r_type r =? T_NSEC) || (r_type r =? T_NSEC3)) ns.
+
 (* Resolver.answer (resp arrives from setTags with AD clear) *)
 (* bailiwick (767eb6f): answer records owned outside the answering zone are dropped first *)
 Definition bailiwick (zone : option name) (resp : msg) : msg :=
@@ -799,8 +807,10 @@ Definition validate_answer_core (E : env) (qname : name) (qtype : N) (cd : bool)
             | SInsecure => Ok resp
             | SVerified false _ => Ok (mk_msg (m_id resp) (m_qname resp) (m_qtype resp) (m_rcode resp) (m_ans resp) (m_ns resp) false)
             | SVerified true s =>
+                (* resp.Ns = FilterRRsToZone(resp.Ns, signer) runs BEFORE VerifyWildcardAnswerForZoneWithWork(resp, …):
+                   the next-closer check sees only what verifyDNSSEC has just authenticated *)
                 let ns' := filter_zone (m_ns resp) s in
-                match verify_wildcard (fun nc => e_wild E (m_id resp) nc s) (m_ans resp) true with
+                match verify_wildcard (fun nc => e_wild E (m_id resp) (denial_records ns') nc s) (m_ans resp) true with
                 | (_, Some e) => Er e
                 | (sec, None) => Ok (mk_msg (m_id resp) (m_qname resp) (m_qtype resp) (m_rcode resp) (m_ans resp) ns' sec)
                 end
